@@ -136,6 +136,48 @@ cs!(CS3, M3, Level::INFO);
 cs!(CS4, M4, Level::DEBUG);
 cs!(CS5, M5, Level::TRACE);
 
+// ---- section 6: a collector whose hint changes at run time and whose `register_callsite` can hold a rebuild
+// in the middle (after the hints were read, before `set_max`), to find out whether a second rebuild may overlap it.
+mod overlap {
+    use std::sync::atomic::{AtomicBool, AtomicUsize};
+    use std::sync::mpsc::{Receiver, Sender};
+    use std::sync::Mutex;
+    pub static HINT: AtomicUsize = AtomicUsize::new(0);
+    pub static ARMED: AtomicBool = AtomicBool::new(false);
+    pub static CHANS: Mutex<Option<(Sender<()>, Receiver<()>)>> = Mutex::new(None);
+}
+struct DynCollector;
+impl Collect for DynCollector {
+    fn register_callsite(&self, _: &'static Metadata<'static>) -> Interest {
+        use std::sync::atomic::Ordering::SeqCst;
+        if overlap::ARMED.swap(false, SeqCst) {
+            if let Some((paused, resume)) = overlap::CHANS.lock().unwrap().take() {
+                let _ = paused.send(());
+                let _ = resume.recv_timeout(std::time::Duration::from_secs(60));
+            }
+        }
+        Interest::sometimes()
+    }
+    fn enabled(&self, _: &Metadata<'_>) -> bool {
+        true
+    }
+    fn max_level_hint(&self) -> Option<LevelFilter> {
+        Some(FILTERS[overlap::HINT.load(std::sync::atomic::Ordering::SeqCst)])
+    }
+    fn new_span(&self, _: &span::Attributes<'_>) -> span::Id {
+        span::Id::from_u64(1)
+    }
+    fn record(&self, _: &span::Id, _: &span::Record<'_>) {}
+    fn record_follows_from(&self, _: &span::Id, _: &span::Id) {}
+    fn event(&self, _: &Event<'_>) {}
+    fn enter(&self, _: &span::Id) {}
+    fn exit(&self, _: &span::Id) {}
+    fn current_span(&self) -> tracing_core::span::Current {
+        tracing_core::span::Current::unknown()
+    }
+}
+static REG1: tracing_core::callsite::Registration = tracing_core::callsite::Registration::new(&CS1);
+
 fn hex(s: &str) -> Option<Vec<u8>> {
     if s.len() % 2 != 0 {
         return None;
@@ -221,6 +263,49 @@ fn main() {
         writeln!(out, "{{\"k\":\"current_after_nohint\",\"r\":{}}}", idx_f(&LevelFilter::current())).unwrap();
         drop(d);
     }
+    // 3b. several live dispatchers: after the last registration `current()` must be the greatest hint
+    //     (no hint counts as TRACE); a dropped dispatcher no longer counts; none at all gives OFF.
+    //     Hint encoding: 0..5 = OFF..TRACE, 9 = the collector gives no hint.
+    {
+        let hints: [(usize, Option<LevelFilter>); 7] = [
+            (0, Some(LevelFilter::OFF)),
+            (1, Some(LevelFilter::ERROR)),
+            (2, Some(LevelFilter::WARN)),
+            (3, Some(LevelFilter::INFO)),
+            (4, Some(LevelFilter::DEBUG)),
+            (5, Some(LevelFilter::TRACE)),
+            (9, None),
+        ];
+        let cur = || match std::panic::catch_unwind(LevelFilter::current) {
+            Ok(c) => idx_f(&c) as i64,
+            Err(_) => -1,
+        };
+        tracing_core::callsite::rebuild_interest_cache();
+        writeln!(out, "{{\"k\":\"published\",\"hs\":[],\"r\":{}}}", cur()).unwrap();
+        for (ea, a) in hints.iter() {
+            for (eb, b) in hints.iter() {
+                {
+                    let d1 = Dispatch::new(HintCollector(*a));
+                    let d2 = Dispatch::new(HintCollector(*b));
+                    writeln!(out, "{{\"k\":\"published\",\"hs\":[{},{}],\"r\":{}}}", ea, eb, cur()).unwrap();
+                    for (ec, c) in hints.iter() {
+                        let d3 = Dispatch::new(HintCollector(*c));
+                        writeln!(out, "{{\"k\":\"published\",\"hs\":[{},{},{}],\"r\":{}}}", ea, eb, ec, cur()).unwrap();
+                        drop(d3);
+                    }
+                    drop(d2);
+                    drop(d1);
+                }
+                {
+                    let d1 = Dispatch::new(HintCollector(*a));
+                    drop(d1);
+                    let d2 = Dispatch::new(HintCollector(*b));
+                    writeln!(out, "{{\"k\":\"published\",\"dead\":{},\"hs\":[{}],\"r\":{}}}", ea, eb, cur()).unwrap();
+                    drop(d2);
+                }
+            }
+        }
+    }
     // 4. LevelFilter as a layer: enabled / register_callsite against each level
     {
         use tracing_subscriber::subscribe::CollectExt;
@@ -253,5 +338,45 @@ fn main() {
         let pl = s.parse::<Level>().ok().map(|l| idx_l(&l) as i64 + 1).unwrap_or(-1);
         let pf = s.parse::<LevelFilter>().ok().map(|f| idx_f(&f) as i64).unwrap_or(-1);
         writeln!(out, "{{\"k\":\"parse\",\"s\":\"{}\",\"level\":{},\"filter\":{}}}", line, pl, pf).unwrap();
+    }
+    // 6. may two `rebuild_interest_cache()` calls overlap, and if so, which value ends up published?
+    //    Thread A starts a rebuild and is held inside the collector's `register_callsite` (so after it read the
+    //    hints); the hint changes; `__verif_lock_state()` says whether a second rebuild could enter now.  If the
+    //    registry lock is held exclusively it cannot (serialised: nothing to run concurrently).  If it can, it is
+    //    run to completion, then A is released.  No sleeps, no races: every step waits for the previous one.
+    {
+        use std::sync::atomic::Ordering::SeqCst;
+        tracing_core::callsite::register(&REG1);
+        for (old, new) in [(3usize, 5usize), (5, 3), (1, 4), (4, 0), (0, 2), (2, 5)] {
+            overlap::HINT.store(old, SeqCst);
+            let d = Dispatch::new(DynCollector);
+            let before = idx_f(&LevelFilter::current());
+            let (ptx, prx) = std::sync::mpsc::channel();
+            let (rtx, rrx) = std::sync::mpsc::channel();
+            *overlap::CHANS.lock().unwrap() = Some((ptx, rrx));
+            overlap::ARMED.store(true, SeqCst);
+            let a = std::thread::spawn(tracing_core::callsite::rebuild_interest_cache);
+            let paused = prx.recv_timeout(std::time::Duration::from_secs(60)).is_ok();
+            overlap::HINT.store(new, SeqCst);
+            let (readable, _writable) = tracing_core::callsite::__verif_lock_state();
+            let mut mid = -1i64;
+            if paused && readable {
+                tracing_core::callsite::rebuild_interest_cache();
+                mid = idx_f(&LevelFilter::current()) as i64;
+            }
+            let _ = rtx.send(());
+            let _ = a.join();
+            if !(paused && readable) {
+                tracing_core::callsite::rebuild_interest_cache();
+            }
+            let fin = idx_f(&LevelFilter::current());
+            writeln!(
+                out,
+                "{{\"k\":\"overlap\",\"old\":{},\"new\":{},\"before\":{},\"paused\":{},\"overlapped\":{},\"mid\":{},\"r\":{}}}",
+                old, new, before, paused as u8, (paused && readable) as u8, mid, fin
+            )
+            .unwrap();
+            drop(d);
+        }
     }
 }
